@@ -44,6 +44,8 @@ type HarnessCfg struct {
 	Guarded     []string          `json:"guarded"`
 	UnwindCut   map[string]int    `json:"unwind_cut"` // loops in these functions are cut after K symbolic iterations (the rest is outside the claim)
 	ExactCap    bool              `json:"exact_cap"` // bytes.Buffer.Bytes() views get cap == len (no symbolic capacity)
+	Coop        bool              `json:"coop"`    // cooperative scheduler for the goroutines of the code under analysis (coop.go)
+	Preempt     int               `json:"preempt"` // pre-emption budget per path (at verifrt.Yield points)
 	RaceMonitor bool              `json:"race_monitor"` // footprint monitor: a byte object that existed before the goroutines were started must not be written by two of them
 	EnvAt       []string          `json:"env_at"` // visible operations at which the environment callback runs (default: all)
 	NoEnd       bool              `json:"no_end"` // the harness ends blocked by design; "end" is not required
@@ -125,9 +127,12 @@ func buildOverlay(repoDir, verifDir string, pc *PropCfg) (map[string][]byte, err
 	}
 	for _, tr := range pc.Transforms {
 		p := filepath.Join(repoDir, tr.File)
-		b, err := os.ReadFile(p)
-		if err != nil {
-			return nil, err
+		b, ok := ov[p] // several transforms of one file compose
+		if !ok {
+			var err error
+			if b, err = os.ReadFile(p); err != nil {
+				return nil, err
+			}
 		}
 		s := string(b)
 		if strings.Count(s, tr.Old) != 1 {
@@ -237,7 +242,9 @@ func (e *Engine) runPath(h *HarnessCfg, fn *ssa.Function, prefix []int, pool *Po
 	defer func() {
 		res.Steps = ex.steps
 		res.Trace = ex.trace
-		if r := recover(); r != nil {
+		r := recover()
+		ex.coAbortAll()
+		if r != nil {
 			if pe, ok := r.(pathEnd); ok {
 				res.End = pe.kind
 				res.Msg = pe.msg
